@@ -29,6 +29,8 @@ type C19Snippet struct {
 	On    string   `json:"on"` // ingress1, ingress2, service
 	Lines []string `json:"lines"`
 	Sep   string   `json:"sep"` // "\n" or "\r\n"
+	// Seps, when set, gives the line break after each line but the last one (mixed LF and CRLF in one snippet)
+	Seps []string `json:"seps,omitempty"`
 }
 
 // C19Case ...
@@ -52,7 +54,19 @@ type C19Case struct {
 
 var c19Pool = []string{"server", "http-request", "acl", "use-server", "timeout", "option"}
 
-func c19Text(s C19Snippet) string { return strings.Join(s.Lines, s.Sep) }
+func c19Text(s C19Snippet) string {
+	if len(s.Seps) == 0 {
+		return strings.Join(s.Lines, s.Sep)
+	}
+	out := ""
+	for i, l := range s.Lines {
+		out += l
+		if i < len(s.Lines)-1 {
+			out += s.Seps[i%len(s.Seps)]
+		}
+	}
+	return out
+}
 
 // genC19Snippet draws the lines of one snippet; n numbers the lines of the whole case.
 func genC19Snippet(t *rapid.T, on string, n *int) C19Snippet {
@@ -95,6 +109,11 @@ func genC19Snippet(t *rapid.T, on string, n *int) C19Snippet {
 			sn.Lines = append(sn.Lines, "")
 		}
 		sn.Lines = append(sn.Lines, line)
+	}
+	if len(sn.Lines) > 1 && chanceT(t, "mixedbreaks", 20) {
+		for range sn.Lines[1:] {
+			sn.Seps = append(sn.Seps, rapid.SampledFrom([]string{"\n", "\r\n"}).Draw(t, "linebreak"))
+		}
 	}
 	return sn
 }
@@ -236,15 +255,9 @@ var c19CLIMemo = struct {
 	m map[string][]string
 }{m: map[string][]string{}}
 
-// c19CLIKeywords gives the value of --disable-config-keywords to the controller's own option handling and returns
-// the list it configures (config.Config.DisableKeywords, which services.go copies to the converters).
-func c19CLIKeywords(value string) ([]string, error) {
-	c19CLIMemo.Lock()
-	defer c19CLIMemo.Unlock()
-	if kws, ok := c19CLIMemo.m[value]; ok {
-		return kws, nil
-	}
-	// the only api call CreateWithConfig makes with these options is a service list
+// cliConfig runs the controller's own option handling (config.CreateWithConfig, against a local API endpoint that
+// answers the only call it makes) for options changed by set, and returns the configuration the controller would run with.
+func cliConfig(set func(*ctlconfig.Options)) (*ctlconfig.Config, error) {
 	apiserver := httptest.NewServer(http.HandlerFunc(func(w http.ResponseWriter, r *http.Request) {
 		w.Header().Set("Content-Type", "application/json")
 		if strings.HasSuffix(r.URL.Path, "/services") {
@@ -255,7 +268,7 @@ func c19CLIKeywords(value string) ([]string, error) {
 		_, _ = w.Write([]byte(`{"kind":"Status","apiVersion":"v1","status":"Failure","reason":"NotFound","code":404}`))
 	}))
 	defer apiserver.Close()
-	dir, err := os.MkdirTemp("", "c19cli")
+	dir, err := os.MkdirTemp("", "clicfg")
 	if err != nil {
 		return nil, err
 	}
@@ -264,8 +277,19 @@ func c19CLIKeywords(value string) ([]string, error) {
 	opt.UpdateStatus = false
 	opt.WatchGateway = false
 	opt.LocalFSPrefix = dir
-	opt.DisableConfigKeywords = value
-	cfg, err := ctlconfig.CreateWithConfig(context.Background(), &rest.Config{Host: apiserver.URL}, opt)
+	set(opt)
+	return ctlconfig.CreateWithConfig(context.Background(), &rest.Config{Host: apiserver.URL}, opt)
+}
+
+// c19CLIKeywords gives the value of --disable-config-keywords to the controller's own option handling and returns
+// the list it configures (config.Config.DisableKeywords, which services.go copies to the converters).
+func c19CLIKeywords(value string) ([]string, error) {
+	c19CLIMemo.Lock()
+	defer c19CLIMemo.Unlock()
+	if kws, ok := c19CLIMemo.m[value]; ok {
+		return kws, nil
+	}
+	cfg, err := cliConfig(func(opt *ctlconfig.Options) { opt.DisableConfigKeywords = value })
 	if err != nil {
 		return nil, err
 	}
